@@ -69,7 +69,7 @@ PROPS = {
                              'random policies: victims read off the observed survivors and checked for admissibility; MSET of several keys under a limit skipped (map order)',
                              'a command is declared hung after 2.5 s of non-GC process CPU or 4000 scheduler polls without progress; background panics are observed as the death of a child process']),
     'C19': dict(suites=ALL_DATA, column='mem', clscol='mcls', relevant=lambda r: True, title='Memory figure is a function of the dataset'),
-    'C20': dict(suites=ALL_DATA, column='iso', relevant=lambda r: True, title='Logical databases are isolated'),
+    'C20': dict(suites=ALL_DATA + [('aof', []), ('snap', [])], column='iso', relevant=lambda r: r.get('line') != 'X' or r['f'].get('iso', 'na') != 'na', title='Logical databases are isolated'),
 }
 
 # ---------------------------------------------------------------------------------------------
